@@ -116,3 +116,103 @@ def run(prog, rule="R-PASTCOL", floor=3):
     res.counts["past_column_subscripts"] = n
     res.floor("subscripts of the matrix arrays by matbeg[c] + matcnt[c]", n, floor)
     return res
+
+
+def run_appendpos(prog, rule="R-APPENDPOS", floor=3):
+    """where a column starts in a matrix that has a free tail.  The column-major matrix of an existing problem keeps its unused slots at the
+    end: `matfree` of them, so the first free position is `matsize - matfree` (columns without entries own reserved slots in front of it:
+    the number of non-zeros is *not* a position).  In every function that works with the free tail (reads `ILLmatrix::matfree`) or enlarges the existing arrays of the matrix, a value
+    stored into an element of `ILLmatrix::matbeg` derives from `matfree`: the stored expression, or the definitions of the locals it is
+    made of (copies, increments, sums - flow-insensitive closure), read that field.  Functions that build a fresh matrix from counts do
+    not read matfree before they set it and are not concerned."""
+    from ..core import apath, fields_of
+    res = RuleResult(rule, "in functions that use the free tail of the column matrix, every column start stored into matbeg derives from matsize - matfree")
+    n = 0
+    for f in sorted(prog.funcs.values(), key=lambda x: x.key):
+        if f.live is None or "_dbl." in f.unit or "_mpf." in f.unit or not f.unit.startswith("qsopt_ex/"):
+            continue
+        reads_free = False
+        defs = {}
+        stores = []
+        for b, i, e in f.elements():
+            trees = [x[1] for x in e[1] if x[1] is not None] if e[0] == "D" else ([e[1]] if len(e) > 1 and isinstance(e[1], list) else [])
+            for t in trees:
+                for nd in walk(t):
+                    if isinstance(nd, list) and nd and nd[0] == "m" and isinstance(nd[2], str) and nd[2].endswith("ILLmatrix::matfree"):
+                        reads_free = True
+            if e[0] == "A":
+                l = strip(e[1][2])
+                if is_var(l, kind="l"):
+                    defs.setdefault(l[2], []).append(e[1][3])
+                if isinstance(l, list) and l and l[0] == "i":
+                    a = strip(l[1])
+                    if isinstance(a, list) and a and a[0] == "m" and isinstance(a[2], str) and a[2].endswith("ILLmatrix::matbeg") and e[1][1] == "=":
+                        stores.append((e[1][3], e[2], show(e[1])[:60]))
+            elif e[0] == "D":
+                for nme, init in e[1]:
+                    if init is not None:
+                        defs.setdefault(nme, []).append(init)
+        for bid in f.live:
+            c = f.blocks[bid].get("c")
+            if c is not None and any(isinstance(nd, list) and nd and nd[0] == "m" and isinstance(nd[2], str) and nd[2].endswith("ILLmatrix::matfree") for nd in walk(c)):
+                reads_free = True
+        # ... or that enlarge the existing arrays of the matrix (as opposed to building a matrix from nothing with fresh blocks)
+        grows = False
+        for b, i, e in f.elements():
+            if e[0] == "A" and e[1][1] == "=":
+                l = strip(e[1][2])
+                if isinstance(l, list) and l and l[0] == "m" and isinstance(l[2], str) and l[2].endswith(("ILLmatrix::matind", "ILLmatrix::matval")):
+                    if any(isinstance(nd, list) and nd and nd[0] == "c" and "realloc" in (nd[1] or "") for nd in walk(e[1][3])):
+                        grows = True
+            if e[0] == "D":
+                for nme, init in e[1]:
+                    if nme.startswith("__ptr__") and init is not None:
+                        t = strip(init)
+                        if isinstance(t, list) and t and t[0] == "u" and t[1] == "&":
+                            inner = strip(t[2])
+                            if isinstance(inner, list) and inner and inner[0] == "m" and str(inner[2]).endswith(("ILLmatrix::matind", "ILLmatrix::matval")):
+                                grows = True
+        # a plain store `A->matfree = k` is no use of the tail
+        if reads_free:
+            reads_free = False
+            for b, i, e in f.elements():
+                trees = [x[1] for x in e[1] if x[1] is not None] if e[0] == "D" else ([e[1][3]] if e[0] == "A" and e[1][1] == "=" else ([e[1]] if len(e) > 1 and isinstance(e[1], list) else []))
+                for t in trees:
+                    if any(isinstance(nd, list) and nd and nd[0] == "m" and isinstance(nd[2], str) and nd[2].endswith("ILLmatrix::matfree") for nd in walk(t)):
+                        reads_free = True
+            for bid in f.live:
+                c = f.blocks[bid].get("c")
+                if c is not None and any(isinstance(nd, list) and nd and nd[0] == "m" and isinstance(nd[2], str) and nd[2].endswith("ILLmatrix::matfree") for nd in walk(c)):
+                    reads_free = True
+        if not (reads_free or grows) or not stores:
+            continue
+
+        def from_free(t, seen):
+            for nd in walk(t):
+                if isinstance(nd, list) and nd and nd[0] == "m" and isinstance(nd[2], str) and nd[2].endswith("ILLmatrix::matfree"):
+                    return True
+                if is_var(nd, kind="l") and nd[2] not in seen:
+                    seen.add(nd[2])
+                    if any(from_free(d, seen) for d in defs.get(nd[2], [])):
+                        return True
+            return False
+
+        for val, loc, txt in stores:
+            if const_of(val) is not None:
+                continue
+            v0 = strip(val)
+            if isinstance(v0, list) and v0 and v0[0] == "i":
+                continue                                    # a copy of another column start (repacking)
+            n += 1
+            res.obligations += 1
+            res.nontrivial += 1
+            if from_free(val, set()):
+                res.sample({"site": "%s %s: %s" % (short_loc(loc), f.name, txt), "verdict": "derived from matfree"}, limit=8)
+            else:
+                res.violations.append(Violation(rule, "%s|column start not derived from the free tail" % f.name.replace("mpq_", ""), f.name, short_loc(loc),
+                                                "%s: the function works with the free tail of the matrix (it reads ILLmatrix::matfree), but this column start is computed "
+                                                "from something else (%s): with reserved slots in front of the tail (columns without entries) it points into used space" % (
+                                                    txt, show(val)[:40])))
+    res.counts["column_starts_stored"] = n
+    res.floor("stores of a computed column start into matbeg in functions that read matfree", n, floor)
+    return res
